@@ -392,6 +392,15 @@ def run_harness(unit, h, scratch):
                 raise Undecided('goto-instrument --unwindset failed: ' + so[-1500:])
             lgb = ugb
             cur = ugb
+        if h.get('add_library'):
+            # link CBMC's own library bodies (e.g. __new, emitted by the C++ front end for `new T(...)`) before the
+            # contract instrumentation; without it dfcc treats them as undefined functions (assert false; assume false)
+            agb = os.path.join(hd, 'a.gb')
+            rc, so, dt, to = run(['goto-instrument', '--add-library', lgb, agb], hd, 300)
+            if rc != 0 or to or not os.path.exists(agb):
+                raise Undecided('goto-instrument --add-library failed: ' + so[-1500:])
+            lgb = agb
+            cur = agb
         if h.get('enforce') or h.get('loops') or h.get('dfcc', False):
             igb = os.path.join(hd, 'i.gb')
             cmd = ['goto-instrument', '--dfcc', entry]
